@@ -5,6 +5,7 @@ import (
 	"fmt"
 	"os"
 	"os/exec"
+	"os/signal"
 	"path/filepath"
 	"runtime"
 	"runtime/debug"
@@ -12,6 +13,7 @@ import (
 	"strconv"
 	"strings"
 	"sync"
+	"syscall"
 	"time"
 
 	"golang.org/x/tools/go/ssa"
@@ -83,6 +85,11 @@ type Session struct {
 // before the kernel kills the process. Limit in MiB from GOSMT_MEM_MB (default 14000).
 var watchdogOnce sync.Once
 
+var (
+	scratchMu   sync.Mutex
+	scratchDirs []string
+)
+
 func startWatchdog() {
 	watchdogOnce.Do(func() {
 		limit := uint64(14000)
@@ -104,7 +111,26 @@ func startWatchdog() {
 
 func NewSession(repo, harnessDir string) (*Session, error) {
 	startWatchdog()
+	defer func() {
+		// remove the scratch directory when the process is interrupted (timeouts of callers, Ctrl-C)
+		sig := make(chan os.Signal, 1)
+		signal.Notify(sig, syscall.SIGTERM, syscall.SIGINT, syscall.SIGHUP)
+		go func() {
+			<-sig
+			scratchMu.Lock()
+			for _, d := range scratchDirs {
+				os.RemoveAll(d)
+			}
+			scratchMu.Unlock()
+			os.Exit(143)
+		}()
+	}()
 	scratch, err := os.MkdirTemp("", "gosmt-")
+	if err == nil {
+		scratchMu.Lock()
+		scratchDirs = append(scratchDirs, scratch)
+		scratchMu.Unlock()
+	}
 	if err != nil {
 		return nil, err
 	}
